@@ -166,6 +166,23 @@ impl<T> Block<T> {
         self.read.load(Ordering::Acquire).trailing_ones() as usize
     }
 
+    // Whether or not any slot of this block has been completely written, regardless of whether
+    // earlier slots still have writes in flight.
+    fn has_written(&self) -> bool {
+        self.read.load(Ordering::Acquire) != 0
+    }
+
+    // Whether or not any slot of the next block, if it exists, has been completely written.
+    fn next_has_written(&self, guard: &Guard) -> bool {
+        let next = self.next.load(Ordering::Acquire, guard);
+        if next.is_null() {
+            return false;
+        }
+
+        unsafe { next.deref() }.has_written()
+    }
+
+
     // Whether or not this block is currently quieseced i.e. no in-flight writes.
     pub fn is_quiesced(&self) -> bool {
         let len = self.len();
@@ -297,7 +314,13 @@ impl<T> AtomicBucket<T> {
         // We have to check the next block of our tail in case the current tail is simply a fresh
         // block that has not been written to yet.
         let tail_block = unsafe { tail.deref() };
-        tail_block.len() == 0 && tail_block.next_len(guard) == 0
+        //
+        // We look for any completed write rather than at the block length: the length only
+        // counts the contiguous run of completed writes from the start of the block, so it stays
+        // at zero while the writer of the first slot is still in flight, even if later slots
+        // have already been completely written.
+        !tail_block.has_written() && !tail_block.next_has_written(guard)
+
     }
 
     /// Pushes an element into the bucket.
